@@ -96,7 +96,7 @@ def verify(T, d1, d2, tolerance):
             if isinstance(p, tuple):
                 scale = max(scale, abs(p[0]), abs(p[1]))
     tmag = max(1.0, max(abs(v) for v in T[:4]))
-    slack = 1e-9 * scale * tmag + tolerance * 1e-6
+    slack = 1e-12 * scale * tmag + tolerance * 1e-6  # float64 round-off only: a looser, magnitude-proportional slack would hide relative tolerances
     lim = tolerance + slack
     worst = 0.0
     for i, (a, b) in enumerate(zip(t1, t2)):
